@@ -49,6 +49,13 @@ func (g *scriptGen) boolLambda() string {
 	r := g.r
 	num := func() string {
 		s := kit.Pick(r, []string{"\"value\"", "\"usage\"", "1", "2.5", "010", "sigma(\"value\")", "abs(\"value\" - 1.0)", "-\"value\"", "(\"value\" + 1) * 2", "\"a\" % 3", "count()", "1 - (2 - 3)", "1 - 2 - 3", "2 * (3 + 4)", "(2 * 3) + 4", "2 / (3 / 4)"})
+		if r.Chance(1, 5) {
+			// number literals of the hard classes (huge whole floats, 17 digits, tiny fractions, int64 edges)
+			s = hardNum(r)
+			if r.Chance(1, 4) {
+				s = "-" + s
+			}
+		}
 		if r.Chance(1, 3) {
 			s += " " + kit.Pick(r, []string{"+", "-", "*", "/"}) + " " + kit.Pick(r, []string{"\"other\"", "3", "(1 + \"x\")", "-2"})
 		}
@@ -89,6 +96,9 @@ func (g *scriptGen) boolLambda() string {
 }
 
 func (g *scriptGen) numLambda() string {
+	if g.r.Chance(1, 5) {
+		return "lambda: " + kit.Pick(g.r, []string{"\"value\" * ", "\"value\" / ", "float(\"usage\") + ", "\"value\" - -"}) + hardFloat(g.r)
+	}
 	return "lambda: " + kit.Pick(g.r, []string{"\"value\" * 2", "(\"value\" + \"usage\") / 2.0", "\"value\" - (\"usage\" - 1)", "float(\"value\") / (float(\"usage\") * 2.0)", "-(\"value\" + 1)", "if(\"value\" > 1, 'a', 'b')", "1 + 2 * 3", "(1 + 2) * 3", "\"value\" / 1h", "sigma(\"value\")"})
 }
 
@@ -156,7 +166,16 @@ var chainNodes = []nodeSpec{
 	}},
 	{call: func(g *scriptGen) string { return "shift(" + kit.Pick(g.r, []string{"1m", "-1m", "10s", "-500ms"}) + ")" }, in: "any", out: "same"},
 	{call: lit("default()"), in: "any", out: "same", props: []func(*scriptGen) string{
-		lit("field('f', 1.0)"), lit("field('g', 2)"), lit("field('h', 'x')"), lit("field('b', TRUE)"), lit("tag('t', 'v')"), lit("field('n', -1.5)"), lit("field('m', -3)"),
+		lit("field('f', 1.0)"), lit("field('g', 2)"),
+		// (never zero: pipeline/tick drops a zero default - finding default-zero-field,
+		// corpus/C13/finding-default-zero-field.ops.pending)
+		func(g *scriptGen) string { return "field('hf', " + hardFloatNonZero(g.r) + ")" },
+		func(g *scriptGen) string { return "field('nhf', -" + hardFloatNonZero(g.r) + ")" },
+		// integer defaults stay within 2^53 (or exactly representable with the same digits): beyond it the pipeline
+		// JSON round trip changes them (finding default-int-field, corpus/C13/finding-default-int-field.ops.pending)
+		func(g *scriptGen) string {
+			return "field('hi', " + kit.Pick(g.r, []string{"9007199254740991", "9007199254740992", "1000000000000000000", "0777", "-9007199254740991"}) + ")"
+		}, lit("field('h', 'x')"), lit("field('b', TRUE)"), lit("tag('t', 'v')"), lit("field('n', -1.5)"), lit("field('m', -3)"),
 	}},
 	{call: lit("delete()"), in: "any", out: "same", props: []func(*scriptGen) string{lit("field('x')"), lit("tag('y')")}},
 	{call: func(g *scriptGen) string { return "sample(" + kit.Pick(g.r, []string{"3", "10s", "1m"}) + ")" }, in: "any", out: "same"},
@@ -332,7 +351,7 @@ func genScriptCase(r *kit.Rand, i int) []string {
 	decls := []string{
 		"var m = " + g.str(),
 		"var period = " + g.dur(),
-		"var threshold = " + kit.Pick(r, []string{"10", "1.5", "010", "-3", "-2.5"}),
+		"var threshold = " + kit.Pick(r, []string{"10", "1.5", "010", "-3", "-2.5", hardNum(r), "-" + hardFloat(r)}),
 		"var flag = " + kit.Pick(r, []string{"TRUE", "FALSE"}),
 		"var re = /" + kit.Pick(r, rxBodies) + "/",
 		"var cond = " + g.boolLambda(),
